@@ -163,8 +163,7 @@ class PolicyDirectoryMonitor(multiprocessing.Process):
 
     def disassociate_policy_and_file(self, policy, file_name):
         c = self.policy_cache.get(policy, [])
-        for i in [c.index(e) for e in c if e[1] == file_name][::-1]:
-            c.pop(i)
+        c[:] = [e for e in c if e[1] != file_name]
 
     def restore_or_delete_policy(self, policy):
         c = self.policy_cache.get(policy, [])
